@@ -18,6 +18,7 @@ TITLES = [
     ("C02", r"no-answer_err_join(-ordered)?_(right|full)", "RIGHT/FULL OUTER joins that are not planned as hash/merge joins hit `todo!()` in the nested-loop join: the statement fails (no answer for a core-subset query)", "src/executor/nested_loop_join.rs:26"),
     ("C02", r"no-answer_panic_subquery", "some IN/EXISTS/scalar subqueries are planned into `apply` nodes or unresolved column references the executor cannot build", "src/planner/rules/plan.rs (subquery_rules); src/executor/mod.rs"),
     ("C02", r"rows-differ_(agg|groupby)", "aggregate semantics differ from SQL: SUM over empty/NULL-only input, COUNT(DISTINCT) counting NULL, hash-agg SUM reset by NULL", "src/executor/evaluator.rs; src/array/ops.rs (sum/count distinct states)"),
+    ("C02", r"(rows-differ|no-answer_err)_window", "window functions ignore PARTITION BY and ORDER BY and return the running aggregate over the input order (the repository's tests/sql/window_function.slt pins `sum(a) OVER ()` = 1, 3, 6); MIN/MAX/SUM OVER on SMALLINT/BIGINT/DOUBLE columns panic in the window operator (result builder typed by the argument, running value pushed with another type)", "src/executor/window.rs; src/binder/expr.rs bind_window_function"),
     ("C02", r"rows-differ_subquery", "subquery answers differ from SQL: NOT IN is planned as an anti join that is not NULL-aware (a NULL on either side must make the predicate unknown); a correlated scalar COUNT subquery is decorrelated without the zero for groups with no rows", "src/planner/rules/plan.rs subquery_rules"),
     ("C02", r"rows-differ_(join|selfjoin|derived|subquery)", "join/subquery answers differ from SQL: NULL = NULL matches in hash/semi joins, NOT IN over NULLs, outer-join ON-condition pushdown", "src/executor/hash_join.rs; src/planner/rules/plan.rs"),
     ("C02", r"rows-differ_proj_", "NULL-unsafe scalar rewrites (a*0, a-a, a=a, conflicting ranges) evaluate to non-NULL on NULL rows", "src/planner/rules/expr.rs"),
@@ -31,6 +32,8 @@ TITLES = [
     ("C13", r"@pos0:(bigint|smallint)", "range pushdown on a BIGINT/SMALLINT key compares the INT literal with the key by DataValue variant order (and start_rowid only supports Int32): missing and extra rows", "src/storage/secondary/rowset/rowset_iterator.rs; disk_rowset.rs start_rowid; src/planner/rules/range.rs (no type/position check)"),
     ("C13", r"@pos0:(varchar|date)", "range pushdown on a non-integer primary key panics in start_rowid ('for now support range-filter scan by sort key type of int32')", "src/storage/secondary/rowset/disk_rowset.rs:165; src/planner/rules/range.rs"),
     ("C13", r"@pos[12]:", "range pushdown when the primary key is not the first table column: start_rowid reads column 0's first keys and the row filter is applied to the first *scanned* column", "src/storage/secondary/rowset/disk_rowset.rs start_rowid; rowset_iterator.rs (id == 0); src/planner/rules/range.rs"),
+    ("C20", r"escape-option", "with an explicit ESCAPE character COPY .. TO still doubles quotes and does not escape the escape character, while COPY .. FROM un-escapes: cells containing the escape character and a quote do not round-trip (the csv writer cannot escape the escape character; not small)", "src/executor/copy_to_file.rs / copy_from_file.rs"),
+    ("C20", r"empty-string-imported-as-null", "the empty string and NULL are both an empty field: '' is imported as NULL (the csv reader does not tell a quoted empty field from an unquoted one)", "src/array/mod.rs push_str; src/executor/copy_from_file.rs"),
     ("C20", r"header", "COPY .. TO with HEADER does not write a header line, but COPY .. FROM with HEADER skips the first line: the first data row is lost", "src/executor/copy_to_file.rs (has_headers only affects serde serialisation); src/executor/copy_from_file.rs"),
     ("C20", r"import-fails@.*null", "NULL is exported as the text NULL, which cannot be imported into a non-string column", "src/executor/copy_to_file.rs (get_to_string); src/array/data_chunk_builder.rs push_str_row"),
     ("C20", r"rows-differ@str", "string columns do not round-trip: NULL is exported as the text 'NULL' (imported as that string), the empty string is imported as NULL", "src/executor/copy_to_file.rs; src/array/data_chunk_builder.rs push_str_row"),
@@ -112,6 +115,14 @@ FIXED = [
     ("fix: a key-range scan starts before the first block", "C13", "pk table, 64-byte blocks (12 INT keys per block), keys 0..9 then 30 rows with k = 10: `select count(*) from t where k = 10` returned 4, `k >= 10` lost the same rows (36 cases of the key sets whose duplicates straddle block boundaries; pointed out by a seeding agent, missed before because the duplicates of the original key set did not straddle a boundary)"),
     ("fix: remove the and-null / or-null rewrite rules", "C14", "`select i, null and q from t`: NULL for q = false (SQL: false); `null or q`: NULL for q = true"),
     ("fix: the untyped NULL is accepted as an operand", "C14", "`select i from t where (null and q) and p is not null`: filter operator panicked 'filters can only accept bool array'; `a = null`, `a + null`: 'no function eq(Int32, NULL)' (80 cases)"),
+    ("fix: COPY .. TO writes NULL as an empty field", "C20", "1-row table (NULL) of any non-string type: import failed with 'failed to convert string \"NULL\" to int'; string NULL came back as the string 'NULL'; with HEADER the first data row was lost on import (14 known-finding classes until repaired)"),
+    ("fix: INSERT enforces the precision and scale", "C16", "`insert into t values (1.255, 7)` / `(123456789012.5, 7)` into x DECIMAL(10,2): stored unchanged (8 cases, listed as known until repaired)"),
+    ("fix: SUM and COUNT accumulate with checked arithmetic", "C14", "`select sum(a) from o` over (INT MAX),(INT MAX) panicked (debug) / wrapped (release); C02 typed aggregates: `select g, sum(si) from n group by g` on a SMALLINT column panicked 'invalid operation: Int16 add Int16' (28 cases)"),
+    ("fix: a window function aggregates its own argument", "C02", "`select g, si, min(si) over (partition by g) from n`: window operator panicked 'type mismatch. builder: Int16, value: Int32'; `select g, sum(a) over () from t` summed g"),
+    ("fix: the disk encoding of INTERVAL keeps the sub-day part", "C19", "interval domain with `cast('1 hour' as interval)`: stored on disk it came back as the zero interval (memory keeps it); pointed out by a seeding agent"),
+    ("fix: parsing a BLOB from text undoes the escaping", "C19", "blob values 'a''b', 'c\\d', '\\x5c27': print -> parse gave a different value (roundtrip-value-differs@blob, 3 of 8 values)"),
+    ("fix: casting a BLOB or VECTOR array", "C20", "types [blob], any cell: COPY .. FROM panicked in the insert operator (todo!(\"cast array\") for BLOB -> BLOB); also `insert into u select b from t`"),
+    ("fix: the zero INTERVAL prints as", "C20", "types [interval], cell interval '0' day: exported as an empty field, imported as NULL"),
     ("fix: nullable block iterator keeps the validity", "C06", "int16 nullable plain, block 32, 81-row pattern, script [next(1), next(7)]: a batch spanning a block boundary lost rows / reported wrong row ids (155 050 cases)"),
 ]
 
